@@ -278,9 +278,10 @@ def check_C07(chk: Check, replay) -> None:
     chk.cov["rule"] = ("a case is a sequence of 1..3 (header, payload) messages of random API classes (plus lone "
                        "entities) written back to back between junk to one stream of each of 6 sink kinds and read "
                        "back from 4 source kinds; distinct = distinct message sequences")
-    res = tlc.run_tlc("MC_Stream", cfg="MC_Stream.cfg", workers=4, timeout=3000, xmx="4g")
+    res = tlc.run_tlc("MC_Stream", cfg="MC_Stream.cfg", workers=4, timeout=3000, xmx="4g", coverage=True)
     if not tlc.tlc_ok(res):
         raise Machinery(f"MC_Stream failed:\n{res['out'][-2000:]}")
+    tlc.require_actions(res, ["Write", "SkipPre", "Read", "Deliver"], "MC_Stream")
     chk.add_tlc("Stream/MC_Stream.cfg", res)
     from .checks_codec import model_check_encoder_machine
     model_check_encoder_machine(chk)       # AppendOnly, SinkIsPrefix: staged bytes are never visible early
@@ -510,9 +511,10 @@ def check_connections(chk: Check) -> None:
     import gzip
     from .checks_codec import encode_with_spec
     from .checks_codegen import PIN_PATH
-    res = tlc.run_tlc("MC_Connection", cfg="MC_Connection.cfg", workers=2, timeout=1200, xmx="2g")
+    res = tlc.run_tlc("MC_Connection", cfg="MC_Connection.cfg", workers=2, timeout=1200, xmx="2g", coverage=True)
     if not tlc.tlc_ok(res):
         raise Machinery(f"MC_Connection failed:\n{res['out'][-2000:]}")
+    tlc.require_actions(res, ["Send", "BrokerRead", "BrokerAnswer", "ClientRead"], "MC_Connection")
     chk.add_tlc("Connection/MC_Connection.cfg", res)
     pinned = json.load(gzip.open(PIN_PATH, "rt"))
     pinned_keys = {a: k for a, e, k, lo, hi, fl in pinned["families"] if e == "request"}
